@@ -50,7 +50,7 @@ ASSUMPTIONS = [
     'documents as "absent" (JSONField.to_json/from_json): such a value and None are the same canonical value',
     'Gateway(None) (an empty shell the constructor tolerates) is not generated; PathInfo/ERO always carry a payload',
     'attribute values are compared through their own to_json (codec fidelity itself is C03)',
-    'image_ref/image_type are set together and comma-free; node_id is compared on the graph path only; node_map is '
+    'image_ref/image_type are set together (the pair is stored as one text), image_type is comma-free; node_id is compared on the graph path only; node_map is '
     'compared as a sequence; sub-interfaces only under DedicatedPorts, one level',
     'unset is only demanded for names that are not identity (name, type) and not image_type (documented as unmapped)',
     'in-memory stores only (Neo4j not reachable); CompositeNodeSliver is not generated',
